@@ -287,7 +287,16 @@ class RouteCQC:
                     if len(circuit.moments) == i + 1:
                         single_qubit_ops[timestep].append(op)
                     elif key in ('', default_key):
-                        single_qubit_ops[timestep].extend(ops.measure(qubit) for qubit in op.qubits)
+                        if op.gate.confusion_map:  # type: ignore[union-attr]
+                            raise ValueError(
+                                'Intermediate measurements on three or more qubits '
+                                'with a confusion map are not supported'
+                            )
+                        invert_mask = op.gate.full_invert_mask()  # type: ignore[union-attr]
+                        single_qubit_ops[timestep].extend(
+                            ops.measure(qubit, invert_mask=(inv,))
+                            for qubit, inv in zip(op.qubits, invert_mask)
+                        )
                     else:
                         raise ValueError(
                             'Intermediate measurements on three or more qubits '
